@@ -40,7 +40,10 @@ MODELLED = ('sr/value_types.py ContentSequence.__init__, append, extend, __iadd_
             're-modelled; ContentItem abstracted to is-item/name/relationship/container/node/payload, a dataset '
             'to is-Dataset/value type/required attribute/name/relationship/children/payload)')
 STRATA = ['hist_sr', 'hist_root', 'hist_nonsr', 'init_err', 'init_via', 'fromseq', 'eq', 'slice']
-RULE = ('random operation histories (length <= 12, plus systematic 2-operation histories) over items with 3 names '
+RULE = ('operations: append, extend, +=, insert, setitem/delitem (int, slice), pop, remove, reverse, clear; construction by '
+        '__init__ (list / another ContentSequence) and by from_sequence (plain Datasets, copy or in place, 7 kinds of '
+        'malformed dataset, wrong relationship state); '
+        'random operation histories (length <= 12, plus systematic 2-operation histories) over items with 3 names '
         'x 2 spellings x 3 relationship states x container/text x node/leaf x small payloads (so equal items '
         'recur) on root / non-root SR / non-SR sequences; boundary-biased positions and slices (None, 0, +-len, '
         '+-(len+1), steps +-1,+-2,3,0; extended-slice lengths exact or off by one); malformed stream: junk '
@@ -103,6 +106,9 @@ def build(it):
 
 def render(x):
     from highdicom.sr import ContainerContentItem
+    from highdicom.sr.value_types import ContentItem
+    if not isinstance(x, ContentItem):
+        return [-1, 0, False, False, -1]       # something that is no content item sits in the sequence
     nm = x.ConceptNameCodeSequence[0]
     n = int(nm.CodeValue) - 100
     rel = _REL_INV[getattr(x, 'RelationshipType', None)]
